@@ -64,6 +64,7 @@ func ChanSend(ptr uintptr, capacity int, v interface{}) {
 		Acquire(&c.free)
 		Release(m.obj)
 		c.buf = append(c.buf, m)
+		Yield("after chan send")
 		return
 	}
 	m.back = &SyncObj{}
